@@ -1,11 +1,12 @@
 import Placement.Driver.Core
+import Placement.Driver.Cands
 /-
   Executable of the model driver.  Extension modules (`Placement/Driver/*.lean`) register their
   command handlers in `extensions`.
 -/
 open Placement.Driver
 
-def extensions : List Ext := []
+def extensions : List Ext := [Placement.Driver.Cands.handle?]
 
 def main : IO Unit := do
   loop extensions (← IO.getStdin) (← IO.getStdout) {}
